@@ -124,17 +124,34 @@ def reaches_unknown(raw, t):
 
 
 def noncanonical(rnd, pool):
-    """(type, bytes, neutral value) for decodable non-canonical bytes."""
+    """(type, bytes) for decodable but non-canonical bytes: a set / mapping
+    listing an element / key twice, a bool byte other than 0/1, trailing
+    bytes after a complete value."""
     q = refcodec._u64
-    k = rnd.randrange(3)
+    ints = ["uint8_t", "int8_t", "uint16_t", "int32_t", "uint64_t", "Addr",
+            "int64_t", "uint32_t"]
+    it = rnd.choice(ints)
+    w, signed = refcodec.INTS[it]
+    x = rnd.randrange(0, 100)
+    xb = refcodec._int_bytes(x, w, signed)
+    yb = refcodec._int_bytes(x + 1, w, signed)
+    k = rnd.randrange(6)
     if k == 0:
-        x = rnd.randrange(256)
-        return ("set", [("uint8_t", [])]), q(3) + bytes([x, x, (x + 1) % 256])
+        return ("set", [(it, [])]), q(3) + xb + xb + yb
     if k == 1:
-        return ("mapping", [("uint8_t", []), ("string", [])]), \
-            q(2) + b"\x05" + q(1) + b"a" + b"\x05" + q(1) + b"b"
-    return ("sequence", [("set", [("int8_t", [])])]), \
-        q(1) + q(2) + b"\x01\x01"
+        return ("mapping", [(it, []), ("string", [])]), \
+            q(2) + xb + q(1) + b"a" + xb + q(1) + b"b"
+    if k == 2:
+        return ("sequence", [("set", [(it, [])])]), q(1) + q(2) + xb + xb
+    if k == 3:
+        return ("tuple", [("bool", []), (it, [])]), b"\x02" + xb
+    if k == 4:
+        return ("mapping", [(it, []), ("bool", [])]), \
+            q(2) + xb + b"\x01" + yb + b"\x07"
+    t = auxgen.gen_type(rnd, rnd.choice([0, 1, 2]))
+    v = auxgen.gen_value(rnd, t, pool)
+    return t, refcodec.encode(v, t) + bytes(
+        rnd.randrange(256) for _ in range(rnd.randint(1, 5)))
 
 
 class Table:
